@@ -337,6 +337,8 @@ def command_args(c):
         a += ["--deps", c["name"] + ".d", "--style", "depinfo" if c["deps"] == "dependency-info" else "makefile"]
     if c.get("restat"):
         a += ["--restat"]
+    if c.get("rsp") is not None:
+        a += ["--rsp", c["rsp_file"]]
     return a
 
 
@@ -520,6 +522,10 @@ class Evaluator:
             h.bytes(b"I")
             for d in disc:
                 self.hash_path(h, d, d, False, [])
+            if c.get("rsp") is not None:
+                # the command reads a response file with this content
+                h.bytes(b"R")
+                h.str(c["rsp"])
             idx = 0
             for o in c.get("outputs", []):
                 if is_virtual(o):
